@@ -3,7 +3,8 @@
 Trace mode (tools/asyncsim_conc): loss (EOF, read error, write error) injected at
 every quiescent point of explored schedules of the REAL HID drivers, reconnect
 limits None/0/1/3, device returning, a caller cancelled at every await followed
-by 300 sends, serial gateways dropping confirmations/answers.  Every trace must be
+by 300 sends, serial gateways dropping confirmations/answers or going silent in the
+middle of a report (truncated frame, then nothing) before further sends.  Every trace must be
 accepted by the Lean model; the property's statements are asserted on the real
 objects."""
 import os
@@ -18,6 +19,7 @@ MODULE = "DaliVerif.Props.C17"
 EXES = ["m_drv"]
 GEN = False
 THEOREMS = ["no_leak", "no_leak_drivers", "wrap_safe", "inflight_fail", "inflight_fail_must_raise",
+            "retry_resends_whole_unit",
             "status_language", "status_language_ok", "status_language_conn", "status_language_strict",
             "retry_pending_while_disconnected", "never_silent", "failed_after_limit", "retry_until_limit",
             "attempts_reset_on_connect", "connect_resets_counter", "limit_is_per_outage",
@@ -42,7 +44,10 @@ PARTIAL = ("Theorems are about the model for every schedule and fault placement;
            "C15.progress / nobody_hangs under two explicit hypotheses - `connected` stays set and GatewayAnswers (the "
            "report each waiting caller waits for is delivered) - which are assumptions about the environment, not "
            "proved of any gateway; that the answers are the right ones is C16. The serial drivers have no reconnect "
-           "machine in the model (their connection is opened once). Open: on hasseb/LUBA/SCI (no sequence numbers) "
+           "machine in the model (their connection is opened once). The model has no byte-level receive parser: a report "
+           "of which only the first bytes arrive is, for the model, a report that is never delivered, and the serial "
+           "`rx_idle` event (always set in the unchanged code) is not modelled - that a half-received frame cannot "
+           "block later sends is asserted on the real drivers only (hang / timeout checks on every explored trace). Open: on hasseb/LUBA/SCI (no sequence numbers) "
            "the late answer of a cancelled send is handed to the next command (xtalk-cancel:*).")
 LEVEL_TEXT = ("Lean 4 theorems, every schedule and fault placement of the model: in every reachable state in which all "
               "callers have finished - normally, by exception or by cancellation - the transaction lock is free, the "
@@ -57,7 +62,9 @@ LEVEL_TEXT = ("Lean 4 theorems, every schedule and fault placement of the model:
               "(attempts_reset_on_connect, connect_resets_counter, limit_is_per_outage); when the device returns the "
               "retry re-opens it, the handshake is repeated, `connected` is set and queued callers are enabled "
               "(recovery); on loss every outstanding command gets a fail message, the table is "
-              "emptied and the waiting task can only leave with CommunicationError or retry (inflight_fail); serial "
+              "emptied and the waiting task can only leave with CommunicationError or retry (inflight_fail), and the "
+              "retry runs the whole unit again, prefix and command never retried separately "
+              "(retry_resends_whole_unit); serial "
               "confirmation time-out raises with every lock released, answer time-out returns (serial_timeout). "
               "Witness theorems show the unrepaired code leaks the slot (F8) and never reports failed (F9).")
 LEVEL_NOTE = ("partial: proof about the model; tie by trace validation over explored schedules with loss injected at "
@@ -82,8 +89,13 @@ def correspond(ctx, corr):
         "point (before/after the write, between echo and answer, during the handshake, during the reconnect wait, "
         "repeated), device returning or not, absent at start, exceptions on/off, 0-3 waiting callers; a caller "
         "cancelled at every await followed by 300 sends on all four drivers; LUBA/SCI dropping confirmation or "
-        "answer; DFS prefix + seeded random; each trace accepted by the Lean model + no leak, callbacks language, "
-        "attempt instants, prompt CommunicationError, timeouts asserted on the real objects")
+        "answer, or going silent PART-WAY THROUGH a report (first 1 / 3 bytes of a confirmation / answer / stray frame "
+        "delivered, then nothing ever) followed by further sends; single-fault sweep (one loss / truncation at every "
+        "quiescent point of the fault-free run, device back) + DFS prefix + seeded random; each trace accepted by the "
+        "Lean model + no leak, callbacks language, attempt instants, prompt CommunicationError, a retried send "
+        "re-sends EnableDeviceType + command and returns the answer to its own command (bus model answers a "
+        "device-type command only behind its prefix), every serial caller ends within the documented timeouts of "
+        "getting the lock, nobody hangs, lock free - asserted on the real objects")
     model = Model("m_drv") if ctx.model_available else None
     r = suite.run_configs(ctx, corr, suite.c17_configs(ctx.thorough), suite.C17_KEYS, model)
     corr.sample({"traces": r.ntraces})
